@@ -55,6 +55,10 @@ CHECKS.update({
  'C16': dict(level='model_checking', technique='exhaustive enumeration: bloom filters for bits 1..64 over all subsets of a key universe, filter blocks over all table subsets x filter bases, and BFS over DB programs under 7 filter settings against the sorted-map model',
    text='No added key is ever reported absent (all 4096 subsets of a 12-key universe x 64 bits-per-key; generated large sets in thorough); tables with many/empty filter partitions find every stored key; every DB operation sequence to the depth returns the model answers with no filter, bloom 1/10/64, and with tables written under bloom10 and reopened with no filter / another policy with and without AltFilters.',
    note='Key sets: all subsets of a finite universe plus a finite generated family.', design='4/C16'),
+
+ 'C02': dict(level='model_checking', technique='explicit-state BFS over DB operation sequences; in every reached state exhaustive enumeration of iterator movement sequences on every range and view against a cursor model; same enumeration on merged/indexed component iterators',
+   text='For every state reached by sequences of puts, deletes, batches, compactions, snapshots and transactions (layout-forcing options, bytewise and shortlex), for the DB, each live snapshot and the open transaction, and for every range with bounds in {nil} plus 7 probes: every sequence of First/Last/Next/Prev/Seek(p) up to the stated depth runs on a fresh iterator and is compared move by move with a cursor over the sorted live pairs. Component level: NewMergedIterator over every assignment of <=5 keys to 3 children, NewIndexedIterator over every split into runs.',
+   note='Movement depth 2-3 (quick) / 3-4 (thorough); table and memdb iterators are enumerated in C13 / C14.', design='4/C02'),
 })
 NA = {}
 
